@@ -121,7 +121,7 @@ def blit(b) -> str:
 def dylit(x: float) -> str:
   """Coq pair (m, e) : Z * Z, exact."""
   m, e = f2dy(x)
-  return "(%s, %s)" % (zlit(m), zlit(e))
+  return "(%s, %s)%%Z" % (zlit(m), zlit(e))
 
 
 def dylist(xs) -> str:
